@@ -191,14 +191,17 @@ class PreAggregationMatcher:
         if query_metric.name not in preagg_measures:
             return False
 
+        # A measure's own filters are not part of the materialized column (the rollup
+        # aggregates every row), so a filtered measure cannot be answered from it
+        if query_metric.filters:
+            return False
+
         # Additional checks based on aggregation type
         agg_type = query_metric.agg
 
         if not agg_type:
-            # Complex metric types (ratio, derived, etc.)
-            # For now, conservatively require all component metrics to be present
-            # TODO: More sophisticated logic for derived metrics
-            return True
+            # Complex metric types (ratio, derived, etc.) have no materialized column
+            return False
 
         # Simple aggregations
         if agg_type in ["sum", "count", "min", "max"]:
@@ -217,8 +220,9 @@ class PreAggregationMatcher:
             # (would need HyperLogLog or storing exact values)
             return False
 
-        # Default: allow if present
-        return True
+        # Anything else (median, stddev, variance, ...) cannot be re-aggregated from
+        # per-bucket values
+        return False
 
     def _find_count_measure_for_avg(self, avg_metric: Metric, preagg_measures: list[str]) -> str | None:
         """Find the appropriate count measure for an AVG metric.
